@@ -88,6 +88,14 @@ class Engine(EngineBase):
             for name in ("f1", "sub/g", "sub/deep/h"):
                 if rng.random() < 0.5:
                     files[name] = f"DATA:{i}:{name}"
+            # a job may itself hold state point files deeper down (a nested project, an earlier export):
+            # they are data of that job, not jobs of the importing project
+            r = rng.random()
+            if r < 0.15:
+                files["nested/signac_statepoint.json"] = json.dumps({"inner": i})
+            elif r < 0.3:
+                files["inner/workspace/0123456789abcdef0123456789abcdef/signac_statepoint.json"] = \
+                    json.dumps({"inner": i, "deep": True})
             jobs.append({"sp": sp, "doc": {"i": i, "u": uni} if rng.random() < 0.7 else {}, "files": files})
         keys = sorted(U)
         spec = rng.choice(["none", "none", "false", "fmt", "fmt", "fmt", "fn", "fn"])
@@ -112,7 +120,8 @@ class Engine(EngineBase):
         schema = rng.choice(["none", "none", "string", "callable"])
         if schema_focus:
             schema = "string"
-            path = rng.choice(["/".join(f"{k}/{{{k}}}" for k in keys), "_".join(f"{k}_{{{k}}}" for k in keys)])
+            # one value per path component: a '_'-joined layout would be ambiguous for \w+ fields
+            path = "/".join(f"{k}/{{{k}}}" for k in keys)
             target = rng.choice(["dir", "dir", "dir", ".zip", ".tar", ".tar.gz"])
         return {"knobs": knobs, "universe": uni, "jobs": jobs, "path": path, "target": target,
                 "schema": schema, "conflict_job": rng.randrange(0, 12) if rng.random() < 0.35 else None,
@@ -344,9 +353,10 @@ class Run:
         if schema_kind == "string" and sc["target"] == "dir" and sc.get("foreign"):
             # a foreign data space: the state point is known from the path alone
             with world.observing():
-                for r, e in snapshot(target).items():
-                    if r.rsplit("/", 1)[-1] == SP_FILE:
-                        O.unlink(os.path.join(target, r))
+                for rel in (exp_paths or {}).values():
+                    f = os.path.join(target, rel, SP_FILE)
+                    if os.path.isfile(f):
+                        O.unlink(f)
             self.probe("foreign_data_space")
             schema_kind = "string-foreign"
         allowed = ["dst/workspace/" + i for i in ids] + ["tmp", "dst/workspace"]
@@ -439,7 +449,7 @@ class Run:
                     return None
             return fn, "callable"
         if kind == "string" and isinstance(sc["path"], str) and "auto" not in sc["path"] \
-                and "job." not in sc["path"]:
+                and "job." not in sc["path"] and "}_" not in sc["path"] and "_{" not in sc["path"]:
             types = {}
             ok = True
             for j in sc["jobs"]:
